@@ -111,7 +111,7 @@ def block_instances(rng):
     # group penalties: 2 groups of sizes (2, 3)
     grp_ptr = np.array([0, 2, 5], dtype=np.int32)
     grp_indices = np.array([3, 0, 1, 4, 2], dtype=np.int32)
-    wg = np.array([rng.choice([0.5, 1.0, 2.0]) for _ in range(2)])
+    wg = np.array([rng.choice([0.0, 0.5, 1.0, 2.0]) for _ in range(2)])     # a zero weight = unpenalised group
     wf = np.array([rng.choice([0.0, 0.5, 1.0, 2.0]) for _ in range(5)])
 
     def gvec(rng):
